@@ -612,7 +612,7 @@ class Compiler:
             return ("pc", P.emit(ins))
         if isinstance(obj, Obj) and obj.kind == "cond":
             if f.attr in ("notify_all", "notify"):
-                ins = self.mk("notify_all", obj.name, s, env)
+                ins = self.mk(f.attr, obj.name, s, env)
                 ins.next = k["next"]
                 return ("pc", P.emit(ins))
             if f.attr == "wait":
